@@ -24,6 +24,17 @@ KEY = "dGhlIHNhbXBsZSBub25jZQ=="          # RFC 6455 sample nonce
 MASK_KEY = bytes([55, 250, 33, 61])      # RFC 6455 sample masking key (the codec spec's default)
 
 
+class HandshakeFailed(Exception):
+    """The opening handshake of a set-up the specification expects to work did not complete.  It is
+    an observation about the code under test (replayers turn it into a divergence, recorders into a
+    trace event no specification action explains), never a harness failure."""
+
+    def __init__(self, where, detail):
+        Exception.__init__(self, "%s: %s" % (where, detail))
+        self.where = where
+        self.detail = str(detail)[:400]
+
+
 def accept_for(key):
     """RFC 6455 accept value recomputed with the stdlib (opaque-function oracle, DESIGN 3.6)."""
     if isinstance(key, str):
@@ -217,7 +228,7 @@ class ServerSide:
         h.extend(extra)
         head = self.request(h)
         if head is None or not head.startswith(b"HTTP/1.1 101"):
-            raise RuntimeError("handshake failed: %r" % head)
+            raise HandshakeFailed("server", "answered %r" % (head[:200] if head else head,))
         return head
 
     @property
@@ -319,7 +330,7 @@ class ClientSide:
         h.extend(extra)
         st = self.respond("HTTP/1.1 101 Switching Protocols", h)
         if st != "ok":
-            raise RuntimeError("client handshake failed: %s" % st)
+            raise HandshakeFailed("client", "connect future %s" % st)
         return st
 
     def drain(self):
@@ -508,6 +519,15 @@ class ReceiverReal:
     """The real WebSocketProtocol13 receiver (server or client role) behind WsReceiver's `recv`."""
 
     def __init__(self, cfg, cat, role="server", mode="cb", grid=0, chunk_mode=0, seed=0):
+        self.env = None
+        try:
+            self._init(cfg, cat, role=role, mode=mode, grid=grid, chunk_mode=chunk_mode, seed=seed)
+        except HandshakeFailed:
+            if self.env is not None:
+                self.env.close()
+            raise
+
+    def _init(self, cfg, cat, role="server", mode="cb", grid=0, chunk_mode=0, seed=0):
         import random
         self.cfg, self.cat, self.role = cfg, cat, role
         self.rng = random.Random(seed)
@@ -621,6 +641,15 @@ class PairReal:
     """Real websocket_connect client <-> real WebSocketHandler server behind WsChannel's actions."""
 
     def __init__(self, cfg, cat, grid=0, mode="cb", seed=0, record=None, recompress=False):
+        self.env = None
+        try:
+            self._init(cfg, cat, grid=grid, mode=mode, seed=seed, record=record, recompress=recompress)
+        except HandshakeFailed:
+            if self.env is not None:
+                self.env.close()
+            raise
+
+    def _init(self, cfg, cat, grid=0, mode="cb", seed=0, record=None, recompress=False):
         import random
         self.cat = cat
         self.rng = random.Random(seed)
@@ -642,7 +671,7 @@ class PairReal:
             hs.append((n.strip(), v.strip()))
         resp = self.server.request(hs)
         if resp is None or not resp.startswith(b"HTTP/1.1 101"):
-            raise RuntimeError("pair handshake failed: %r" % resp)
+            raise HandshakeFailed("pair-server", "answered %r" % (resp[:200] if resp else resp,))
         # The harness stands for a conformant peer on both sides: a no_context_takeover parameter in
         # the offer the server accepted binds the connection (RFC 7692 7.1.1), so it is part of the
         # answer the client sees even if the server did not repeat it.
@@ -657,7 +686,7 @@ class PairReal:
         self.client.stream.feed(resp)
         self.env.settle()
         if self.client.connect_state() != "ok":
-            raise RuntimeError("pair handshake: client %s" % self.client.connect_state())
+            raise HandshakeFailed("pair-client", "connect future %s" % self.client.connect_state())
         self.client.conn = self.client.fut.result()
         self.negotiated = [ln for ln in resp.decode("latin1").split("\r\n") if ln.lower().startswith("sec-websocket-extensions")]
         # negotiated permessage-deflate parameters (plumbing: split the header the server sent)
@@ -793,6 +822,15 @@ class CloseReal:
     actions; the harness is the peer and owns the virtual clock."""
 
     def __init__(self, cfg, chunk_mode=0, seed=0):
+        self.env = None
+        try:
+            self._init(cfg, chunk_mode=chunk_mode, seed=seed)
+        except HandshakeFailed:
+            if self.env is not None:
+                self.env.close()
+            raise
+
+    def _init(self, cfg, chunk_mode=0, seed=0):
         import random
         import struct
         self.struct = struct
